@@ -598,6 +598,111 @@ Lemma T_C12_D6_witness :
     RPanic PUnwrapNone (<[5 := Elem 5 7 1]> ∅).
 Proof. reflexivity. Qed.
 
+(* ---------------------------------------------------------------- C17 *)
+
+(* the model has one behaviour for both build profiles: nothing in it reads the profile flag *)
+Lemma T_C17_profile_independent R z e w t :
+  step (Cfg R true z e) w t = step (Cfg R false z e) w t.
+Proof. reflexivity. Qed.
+
+Lemma T_C17_run_profile_independent R z e ts w acc :
+  run (Cfg R true z e) w ts acc = run (Cfg R false z e) w ts acc.
+Proof. reflexivity. Qed.
+
+(* ... which is faithful to a release build only if the assertions a debug build checks never
+   fail.  They never do: in a reachable world a call ends normally, in a documented panic the
+   reference predicts, in the recorded panic of finding D6, or in the user's own panic; never in
+   a failed assert!/debug_assert! (the crate's or hashbrown's) or an arithmetic overflow. *)
+Definition expected_panic (p : panic) : Prop :=
+  p = PUser \/ p = PCapOverflow \/ p = PIndexMissing \/ p = PUnwrapNone.
+
+Lemma ref_step_panic raw m a st0 p m' : ref_step raw m a st0 = RPanic p m' -> p = PUnwrapNone.
+Proof.
+  destruct a as [k held|k held|]; cbn [ref_step]; [| |discriminate].
+  - destruct (m !! k); [|discriminate]. destruct st0; try discriminate; unfold ref_replace;
+      try (destruct keep; discriminate); destruct held; try discriminate; intros [= <- _]; reflexivity.
+  - destruct (m !! k); [discriminate|]. destruct st0, held; discriminate.
+Qed.
+
+Lemma ref_chain_out raw : forall ss m a acc,
+  match ref_chain raw m a ss acc with
+  | ROk _ _ o => exists l, o = OutS l
+  | RPanic p _ => p = PUnwrapNone
+  | RBad => True
+  end.
+Proof.
+  induction ss as [|st0 ss IH]; intros m a acc; cbn [ref_chain]; [eauto|].
+  destruct (ref_step raw m a st0) as [|p1 m1|m1 a1 o1] eqn:E; [exact I|eapply ref_step_panic; exact E|apply IH].
+Qed.
+
+Lemma chain_rel_panic raw held σ s k ss p σ' :
+  chain_rel raw held σ s k ss (OutP p) σ' -> p = PCapOverflow \/ p = PUnwrapNone.
+Proof.
+  intros (m & _ & [[H _]|H]); [injection H as ->; auto|].
+  pose proof (ref_chain_out raw ss m (start_ent m k held) []) as Ho.
+  destruct (ref_chain raw m (start_ent m k held) ss []) as [|p1 m1|m1 a1 o1]; [contradiction| |].
+  - destruct H as [H _]. injection H as ->. auto.
+  - destruct H as [H _]. destruct Ho as [l Hl]. rewrite Hl in H. discriminate.
+Qed.
+
+Lemma spec_rel_panic σ o p σ' :
+  core_op o -> spec_rel σ o (OutP p) σ' -> p = PCapOverflow \/ p = PIndexMissing \/ p = PUnwrapNone.
+Proof.
+  intros Hc Hs. destruct o; cbn [core_op] in Hc; try contradiction; cbn [spec_rel] in Hs.
+  - destruct Hs as [[H|H] _]; [discriminate|injection H as ->; auto].
+  - destruct Hs as (m & _ & [[H _]|[H _]]); [discriminate|injection H as ->; auto].
+  - destruct Hs as (m & _ & [H|(_ & _ & H)] & _); [|injection H as ->; auto].
+    unfold get_out in H. destruct (gvar_of variant), (m !! k); discriminate.
+  - destruct Hs as (m & _ & H & _). destruct entry; discriminate.
+  - destruct Hs as (m & _ & H & _). discriminate.
+  - destruct Hs as (m & _ & [H|H] & _); [discriminate|injection H as ->; auto].
+  - destruct Hs as (m & _ & [b H] & _). discriminate.
+  - destruct Hs as (m & _ & H & _). discriminate.
+  - destruct Hs as (m & l & _ & _ & _ & H & _). discriminate.
+  - destruct Hs as (m & l & _ & _ & _ & H & _). discriminate.
+  - destruct Hs as (m & l & _ & _ & _ & H & _). discriminate.
+  - destruct Hs as (m & l & _ & _ & _ & H & _). discriminate.
+  - destruct Hs as (m & l & v1 & rest & m' & _ & _ & _ & _ & H & _). discriminate.
+  - destruct Hs as (m & _ & [[[h H] _]|[H _]]); [discriminate|injection H as ->; auto].
+  - destruct Hs as (m & md & _ & _ & [[[h H] _]|[H _]]); [discriminate|injection H as ->; auto].
+  - destruct Hs as (ma & mb & _ & _ & (b0 & H & _) & _). discriminate.
+  - destruct Hs as [H _]. discriminate.
+  - apply chain_rel_panic in Hs. tauto.
+  - apply chain_rel_panic in Hs. tauto.
+  - destruct Hs as (m & _ & H & _). discriminate.
+Qed.
+
+Lemma T_C17_no_assertion_fires c w t p w' :
+  0 < cR c -> WInv c w -> core_op (t_op t) -> step c w t = Unwind p w' -> expected_panic p.
+Proof.
+  intros HR HW Hc Hrun. pose proof (step_core c HR w t HW Hc) as H. rewrite Hrun in H. cbn [wres] in H.
+  unfold expected_panic. destruct H as [[Hne [_ Hs]]|[-> _]]; [|auto].
+  apply spec_rel_panic in Hs; [tauto|exact Hc].
+Qed.
+
+(* no size computation can wrap: every length, capacity and bucket count the crate adds or
+   compares stays below isize::MAX, so a sum of two of them fits a usize *)
+Lemma two_isize : isize_max + isize_max <= usize_max.
+Proof. unfold N.le. vm_compute. discriminate. Qed.
+
+Lemma T_C17_sizes_fit c r :
+  Inv (cR c) (cesz c) r ->
+  rt_len r <= rt_capacity r /\ rt_capacity r <= isize_max /\ hB (main r) <= isize_max /\
+  rt_capacity r + rt_capacity r <= usize_max /\
+  match lo r with Some o => olen o <= isize_max /\ hlen (main r) + olen o <= isize_max | None => True end.
+Proof.
+  intros HI. pose proof (Inv_cap_ge_len c r HI) as Hle. destruct HI as (HR & Hok & Ho).
+  pose proof (hb_ok_cap_bound _ _ Hok) as Hb. pose proof (hb_ok_gl_bound _ _ Hok) as [Hg Hn].
+  pose proof two_isize as Hiu.
+  assert (HB : hB (main r) <= isize_max).
+  { destruct Hok as (_ & _ & _ & _ & [->|Hl]); [pose proof usize_max_big; lia|apply (layout_ok_bound (cesz c)); exact Hl]. }
+  unfold rt_len, rt_capacity in *. destruct (lo r) as [o|].
+  - destruct Ho as (_ & _ & _ & _ & Hneed). pose proof (need_ge (olen o) (cR c) HR). unfold hlen in *.
+    split; [lia|]. split; [lia|]. split; [exact HB|]. split; [lia|]. split; lia.
+  - unfold hlen in *. split; [lia|]. split; [lia|]. split; [exact HB|]. split; [lia|exact I].
+Qed.
+
+
 (* ---------------------------------------------------------------- non-vacuity: a concrete
    history reaches a state in the middle of a resize (R = 8, 15 insertions into an empty map) *)
 Definition ex_cfg : cfg := Cfg 8 true false 24.
